@@ -174,8 +174,10 @@ fn swap_mutex(fair: bool) {
     swap_check("C03", "the lock future", mr.lock(), move || {
         loom::thread::spawn(move || {
             let g = gptr;
+            // a neutral operation first: the concurrent re-poll may collide with a critical
+            // section that does not notify anybody
+            let _ = holder.is_locked();
             drop(g);
-            let _ = &holder;
         })
     });
 }
@@ -191,7 +193,12 @@ fn swap_sem(fair: bool) {
     let s = Arc::new(GenericSemaphore::<LoomRaw>::new(fair, 0));
     let _ = s.permits();
     let s2 = s.clone();
-    swap_check("C06", "the acquire future", s.acquire(1), move || loom::thread::spawn(move || s2.release(1)));
+    swap_check("C06", "the acquire future", s.acquire(1), move || {
+        loom::thread::spawn(move || {
+            let _ = s2.permits();
+            s2.release(1)
+        })
+    });
 }
 fn swap_sem_fair() {
     swap_sem(true)
@@ -203,14 +210,22 @@ fn swap_event() {
     let e = Arc::new(GenericManualResetEvent::<LoomRaw>::new(false));
     let _ = e.is_set();
     let e2 = e.clone();
-    swap_check("C14", "the wait future", e.wait(), move || loom::thread::spawn(move || e2.set()));
+    swap_check("C14", "the wait future", e.wait(), move || {
+        loom::thread::spawn(move || {
+            let _ = e2.is_set();
+            e2.set()
+        })
+    });
 }
 fn swap_mpmc_recv() {
     let (tx, rx) = sh::generic_channel::<LoomRaw, u32, FixedHeapBuf<u32>>(1);
     let _ = rx.try_receive();
+    let rx2 = rx.clone();
     swap_check("C10", "the receive future", rx.receive(), move || {
         loom::thread::spawn(move || {
+            let _ = rx2.try_receive();
             let _ = tx.try_send(1);
+            let _keep = rx2;
         })
     });
 }
@@ -218,8 +233,10 @@ fn swap_mpmc_send() {
     let (tx, rx) = sh::generic_channel::<LoomRaw, u32, FixedHeapBuf<u32>>(1);
     let _ = rx.try_receive();
     tx.try_send(1).unwrap();
+    let tx2 = tx.clone();
     swap_check("C10", "the send future", tx.send(2), move || {
         loom::thread::spawn(move || {
+            let _ = tx2.try_send(9);
             let _ = rx.try_receive();
             // keep the receiver alive until the sender side is done
             let _keep = rx;
@@ -242,6 +259,7 @@ fn swap_state() {
     let c2 = c.clone();
     swap_check("C13", "the state receive future", c.receive(StateId::new()), move || {
         loom::thread::spawn(move || {
+            let _ = c2.try_receive(StateId::new());
             let _ = c2.send(1);
         })
     });
@@ -253,6 +271,7 @@ fn swap_timer() {
     let t2 = t.clone();
     swap_check("C15", "the timer future", Timer::deadline(&*t, 1), move || {
         loom::thread::spawn(move || {
+            let _ = t2.next_expiration();
             CLK.0.store(1, Ordering::SeqCst);
             t2.check_expirations();
         })
